@@ -46,6 +46,9 @@ def check(run):
               'mode / concentration are not the (eigenvector, eigenvalue) pair returned by get_pca(covariance)', construct='R-SEL::ComplexWatsonTrainer._fit::pair')
     # integration models: both streams, exponent weighted, added (shared instance with C01)
     c01.check_models(run, A)
+    # ... and the inline-aligned variant of that E-step combines the streams with the permutation its search selected
+    from . import c14
+    c14.check_inline_pa(run, A)
     from .. import reshape as _rs
     _n = _rs.check_reshapes(run, A, [D + 'gcacgmm::GCACGMMTrainer.fit', D + 'vmfcacgmm::VMFCACGMMTrainer.fit', D + 'gcacgmm::GCACGMM.predict', D + 'vmfcacgmm::VMFCACGMM.predict'])
     run.floor('reshapes of the integration models with resolved axis order', _n, 4)
